@@ -2,6 +2,7 @@ package sim
 
 import (
 	"fmt"
+	"strings"
 
 	"github.com/hashicorp/raft"
 )
@@ -215,4 +216,20 @@ func (o *Oracles) CheckLatestCfg(in *Instance, cfg raft.Configuration) bool {
 	}
 	in.cfgOKKey, in.cfgOKOps = key, in.Srv.opCount
 	return true
+}
+
+// ResetRepeats forgets the repeat counters of transfers to a server (caller
+// holds Mu): a follower whose log store is failing reads cannot be expected to
+// make progress, repeats towards it are not a loop of raft's making.
+func (o *Oracles) ResetRepeats(to string) {
+	for k, rr := range o.snapRepeat {
+		if strings.HasSuffix(k, ">"+to) {
+			rr.n, rr.qn = 0, 0
+		}
+	}
+	for k, rr := range o.aeRepeat {
+		if strings.HasSuffix(k, ">"+to) {
+			rr.n, rr.qn = 0, 0
+		}
+	}
 }
